@@ -79,6 +79,7 @@ def run_unit(name, carve=None, mutate=None, tag='main', verify_fn=None, timeout=
     sp = splice.Splicer(U, variant_carve=carve, mutate=mutate)
     gen = sp.build()
     gen.unit_name = name
+    gen.kind_tags = getattr(U, 'kind_tags', {})
     path = os.path.join(OUT, 'gen', '%s_%s.rs' % (name, tag))
     flags = list(getattr(U, 'flags', []))
     if verify_fn:
